@@ -28,6 +28,12 @@
 #include "partitioner.h"
 #include "profiling.h"
 
+#if defined(ONEAPI_SRC_ONETBB_VERIF) && !defined(__TBB_VERIF_REDUCE_OFFER)
+// Verification hook (off unless ONEAPI_SRC_ONETBB_VERIF is defined): a harness may define
+// __TBB_VERIF_REDUCE_OFFER(left_task, right_task) before including this header to observe offer_work.
+#define __TBB_VERIF_REDUCE_OFFER(left_task, right_task) ((void)0)
+#endif
+
 namespace tbb {
 namespace detail {
 #if __TBB_CPP20_CONCEPTS_PRESENT
@@ -172,6 +178,9 @@ private:
 
         // New root node as a continuation and ref count. Left and right child attach to the new parent.
         right_child->my_parent = my_parent = alloc.new_object<tree_node_type>(ed, my_parent, 2, *my_body, alloc);
+#ifdef ONEAPI_SRC_ONETBB_VERIF
+        __TBB_VERIF_REDUCE_OFFER(*this, *right_child);
+#endif
 
         // Spawn the right sibling
         right_child->spawn_self(ed);
